@@ -144,7 +144,9 @@ def inventory(c):
 
 def run_harness(c, exe, tier, extra_env=None):
     impl = os.path.join(c.workdir, "impl-%d.txt" % len(os.listdir(c.workdir)))
-    rc, o, e = V.sh([exe, "-tier", tier, "-out", impl, "-j", str(V.NCPU)], timeout=3300, env_extra=extra_env)
+    # the machine is shared: at most 8 worker processes (VERIF_JOBS overrides)
+    jobs = min(V.NCPU, int(os.environ.get("VERIF_JOBS", "8")))
+    rc, o, e = V.sh([exe, "-tier", tier, "-out", impl, "-j", str(jobs)], timeout=3300, env_extra=extra_env)
     if rc != 0:
         return None, (o + e)[-1500:]
     return impl, ""
